@@ -367,6 +367,7 @@ impl StorageEngine {
         if let Some(stored_value) = shard_guard.data.get_mut(key) {
             stored_value.metadata.set_expiration(expires_in);
             shard_guard.expiring_keys.insert(key.to_vec(), Instant::now() + expires_in);
+            shard_guard.mark_modified(key);
             Ok(true)
         } else {
             Ok(false)
@@ -485,6 +486,9 @@ impl StorageEngine {
                 total_memory_to_free += self.calculate_value_size(key, &stored_value.value);
             }
             
+            for key in shard_guard.data.keys() {
+                shard_guard.mark_modified(key);
+            }
             shard_guard.data.clear();
             shard_guard.expiring_keys.clear();
         }
@@ -2031,6 +2035,7 @@ impl StorageEngine {
             let mut shard_guard = old_shard.write().unwrap();
             if let Some(stored_value) = shard_guard.data.remove(old_key) {
                 shard_guard.data.insert(new_key.clone(), stored_value);
+                shard_guard.mark_modified(old_key);
                 shard_guard.mark_modified(&new_key);
                 Ok(())
             } else {
@@ -2056,6 +2061,7 @@ impl StorageEngine {
             // Move the value between shards
             if let Some(stored_value) = old_guard.data.remove(old_key) {
                 new_guard.data.insert(new_key.clone(), stored_value);
+                old_guard.mark_modified(old_key);
                 new_guard.mark_modified(&new_key);
                 Ok(())
             } else {
@@ -2112,6 +2118,7 @@ impl StorageEngine {
             if stored_value.metadata.expires_at.is_some() {
                 stored_value.metadata.clear_expiration();
                 shard_guard.expiring_keys.remove(key);
+                shard_guard.mark_modified(key);
                 Ok(true)
             } else {
                 Ok(false)
